@@ -14,7 +14,7 @@ import random
 import sympy as sp
 
 from . import units as U
-from .anf import bose, is_zero, short
+from .anf import bose, short
 from .facts import (physics_seeds, qha_attr_hook, interpolate_modes_roles, LONG, FREQ, GAMMA, VDR, T, E0, E1, QPHYS)
 from .report import AnalysisError
 from .sym import Ev, ArrV, Tup, Obj, as_sym
@@ -85,29 +85,40 @@ class CellFold:
                 z[self.VD.cells[c]] = 0
         return expr.subs(z)
 
+    @staticmethod
+    def _nonzero(d, seed):
+        """is the rational function d (after the Bose substitution) different from zero?  Decided by exact evaluation at generic rational
+        points (a non-zero rational function vanishes on a set of measure zero; two independent points).  An expression in which an exp()
+        of a non-Bose argument survives is evaluated to 40 digits instead"""
+        rnd = random.Random(seed)
+        syms = sorted(d.free_symbols, key=str)
+        for _ in range(2):
+            pt = {s_: sp.Rational(rnd.randint(11, 97), rnd.randint(7, 31)) for s_ in syms}
+            v = d.xreplace(pt)
+            if v.is_Rational:
+                if v != 0:
+                    return True
+                continue
+            scale = sum(abs(sp.N(t, 40)) for t in sp.Add.make_args(v)) or 1
+            if abs(sp.N(v, 40)) > scale * sp.Float("1e-30"):
+                return True
+        return False
+
     def differs(self, got, want, pairs=False, same_strain=False):
         """[] when got == want; otherwise a description of where they differ (cells, cell pairs, or the whole)"""
         d = self.bose(as_sym(got)) - self.bose(want)
         if same_strain:
             d = d.subs(E1, E0)
         bad = []
+        if not self._nonzero(d, 20261005):
+            return bad
         for c in self.cells():
-            if not is_zero(self.only(d, [c])):
+            if self._nonzero(self.only(d, [c]), 20261006):
                 bad.append(f"cell (q={c[0]}, m={c[1]})")
         if pairs and not bad:
             cs = self.cells()
             for i, a in enumerate(cs):
                 for b in cs[i + 1:]:
-                    if not is_zero(self.only(d, [a, b])):
+                    if self._nonzero(self.only(d, [a, b]), 20261007):
                         bad.append(f"cells (q={a[0]}, m={a[1]}) x (q={b[0]}, m={b[1]})")
-        if not bad:
-            # the whole difference, at generic rational points (exact arithmetic): terms that couple more cells than probed above
-            rnd = random.Random(20261005)
-            syms = sorted(d.free_symbols, key=str)
-            for _ in range(2):
-                pt = {s_: sp.Rational(rnd.randint(11, 97), rnd.randint(7, 31)) for s_ in syms}
-                v = d.xreplace(pt)
-                if v != 0 and sp.nsimplify(v) != 0:
-                    bad.append("the sum over all cells")
-                    break
-        return bad
+        return bad or ["the sum over all cells"]
